@@ -270,7 +270,7 @@ CT = 'closure-true-ensures'
 DOCLEXER.update({
     'LuaDocLexer::lex_init': st_fn('lex_init', rules=[(MIC, {'count': 1}), CT]),
     'LuaDocLexer::lex_tag': st_fn('lex_tag', rules=[(MIC, {'count': 1}), CT]),
-    'LuaDocLexer::lex_normal': st_fn('lex_normal', rules=[(MIC, {'count': 1}), CT, 'closure-ascii-digit-ensures'], attrs='#[verifier::spinoff_prover]\n#[verifier::rlimit(30)]'),
+    'LuaDocLexer::lex_normal': st_fn('lex_normal', rules=[(MIC, {'count': 1}), CT, 'closure-ascii-digit-ensures'], attrs='#[verifier::spinoff_prover]'),
     'LuaDocLexer::lex_field_start': st_fn('lex_field_start', rules=[(MIC, {'count': 1})]),
     'LuaDocLexer::lex_description': st_fn('lex_description', rules=[(MIC, {'count': 1}), CT]),
     'LuaDocLexer::lex_long_description': st_fn(
@@ -345,7 +345,8 @@ O, F, S = 'old(self)', 'final(self)', '&*self'
 # "the EatToken ranges appended tile [front(old), front(final))"
 EATS = """dinv(final(self)) /*@C01.docparser.invariant*/,
         !(final(self).current_token is None),
-        ate(old(self), final(self)) /*@C01.docparser.eaten-tile-prefix*/"""
+        ate(old(self), final(self)) /*@C01.docparser.eaten-tile-prefix*/,
+        final(self).sp_level() == old(self).sp_level()"""
 SPIN = '#[verifier::spinoff_prover]'
 
 # ghost interface of the trait (rule trait-spec-overlay of unit c01_parser, with a prophetic `sp_rest`: for the doc
@@ -361,9 +362,10 @@ TRAIT_GHOST = """
 
 WS_LOOP = """
     invariant
-        dinv(self), !(self.current_token is None), lexready(old(self)),
-        dframe(old(self), self),
-        tiles(eaten(self.lua_parser.events@).skip(eaten(old(self).lua_parser.events@).len() as int), nxt(old(self)), front(self), self.lexer.origin_text.spec_bytes()),
+        dinv(self) /*@C01.docparser.invariant*/,
+        !(self.current_token is None), lexready(old(self)),
+        dframe(old(self), self), self.sp_level() == old(self).sp_level(),
+        tiles(eaten(self.lua_parser.events@).skip(eaten(old(self).lua_parser.events@).len() as int), nxt(old(self)), front(self), self.lexer.origin_text.spec_bytes()) /*@C01.docparser.eaten-tile-prefix*/,
     decreases span_hi(self.tokens@) - front(self) /*@C02.docparser.skip-loops-terminate*/
 """
 WS_STEP = """
@@ -457,7 +459,7 @@ DRIVER = {
     'CompleteMarker': {'src': {'file': MK, 'kind': 'struct', 'name': 'CompleteMarker'}, 'rules': ['vis-pub', ('struct-fields', {})]},
     'LuaParser': {'src': {'file': LP, 'kind': 'struct', 'name': 'LuaParser'},
                   'rules': [('struct-fields', {'keep': ['text', 'events', 'tokens', 'token_index', 'current_token', 'mark_level', 'parse_config']})]},
-    'LuaParser::get_mark_level': pc_fn('get_mark_level'), 'LuaParser::incr_mark_level': pc_fn('incr_mark_level'),
+    'LuaParser::get_mark_level': pc_fn('get_mark_level', body_first='proof { assert(self.sp_level() == self.mark_level); }  // (hint: makes the impl\'s definition of sp_level part of the query)'), 'LuaParser::incr_mark_level': pc_fn('incr_mark_level'),
     'LuaParser::decr_mark_level': pc_fn('decr_mark_level'), 'LuaParser::get_events': pc_fn('get_events'),
     'LuaParser::origin_text': {'src': {'file': LP, 'kind': 'fn', 'impl': 'LuaParser', 'name': 'origin_text'}, 'ret': 'r', 'ensures': 'r == self.text'},
 
@@ -471,7 +473,8 @@ DRIVER = {
     'LuaDocParser::lex_token': dp_fn(
         'lex_token', ret='t', attrs=SPIN,
         requires='lexready(old(self))',
-        ensures="""dbase(final(self)), dframe(old(self), final(self)),
+        ensures="""dbase(final(self)), dframe(old(self), final(self)), final(self).sp_level() == old(self).sp_level(),
+        t.kind is TkEof ==> lx_done(&old(self).lexer),
         final(self).lua_parser.events@ == old(self).lua_parser.events@,
         final(self).current_token == old(self).current_token, final(self).current_token_range == old(self).current_token_range,
         final(self).origin_token_index >= old(self).origin_token_index,
@@ -483,12 +486,12 @@ DRIVER = {
         proof { lemma_dframe_refl(&*self); }""",
         loops={0: """
     invariant_except_break
-        lexready(self), dframe(old(self), self),
+        lexready(self), dframe(old(self), self), self.sp_level() == old(self).sp_level(),
         self.lua_parser.events@ == old(self).lua_parser.events@, self.lexer == old(self).lexer,
         self.current_token == old(self).current_token, self.current_token_range == old(self).current_token_range,
         self.origin_token_index == old(self).origin_token_index,
     ensures
-        dbase(self), dframe(old(self), self),
+        dbase(self), dframe(old(self), self), self.sp_level() == old(self).sp_level(),
         self.lua_parser.events@ == old(self).lua_parser.events@,
         self.current_token == old(self).current_token, self.current_token_range == old(self).current_token_range,
         self.origin_token_index >= old(self).origin_token_index,
@@ -522,7 +525,7 @@ DRIVER = {
         eaten(final(self).lua_parser.events@) == eaten(old(self).lua_parser.events@).push(old(self).current_token_range) /*@C01.docparser.eat-pushes-current-range*/""",
         proof=[(r'let token = self\.lex_token\(\);', 'before', """
         let ghost q0 = *self;
-        proof { lemma_after_push(old(self), &q0); }"""),
+        proof { lemma_after_push(old(self), &q0); /*@C01.docparser.eaten-tile-prefix*/ }"""),
                (r'self\.current_token_range = token\.range;\s*\}', 'after', """
         proof {
             lemma_tiles_refl(eaten(q0.lua_parser.events@), nxt(&q0), self.lexer.origin_text.spec_bytes());
@@ -534,11 +537,11 @@ DRIVER = {
         requires='lexready(old(self))',
         ensures="""dinv(final(self)) /*@C01.docparser.invariant*/,
         !(final(self).current_token is None),
-        dframe(old(self), final(self)),
+        dframe(old(self), final(self)), final(self).sp_level() == old(self).sp_level(),
         tiles(eaten(final(self).lua_parser.events@).skip(eaten(old(self).lua_parser.events@).len() as int), nxt(old(self)), front(final(self)), old(self).lexer.origin_text.spec_bytes()) /*@C01.docparser.eaten-tile-prefix*/""",
         loops={0: WS_LOOP, 1: WS_LOOP, 2: WS_LOOP, 3: WS_LOOP},
         rules=[('c01doc-ws-step', {'count': 4})],
-        proof=[(r'self\.current_token_range = token\.range;', 'after', """
+        proof=[(r'if self\.current_token == LuaTokenKind::TkEof \{', 'before', """
         proof {
             lemma_tiles_refl(eaten(old(self).lua_parser.events@), nxt(old(self)), self.lexer.origin_text.spec_bytes());
         }""")]),
@@ -550,7 +553,7 @@ DRIVER = {
         real_kind(old(self).current_token) ==> front(final(self)) > front(old(self)) /*@C02.docparser.bump-progress*/""",
         proof=[(r'self\.calc_next_current_token\(\);', 'before', """
         let ghost q0 = *self;
-        proof { lemma_after_push(old(self), &q0); }"""),
+        proof { lemma_after_push(old(self), &q0); /*@C01.docparser.eaten-tile-prefix*/ }"""),
                (r'self\.calc_next_current_token\(\);', 'after', """
         proof { lemma_after_next(old(self), &q0, &*self); }""")]),
 
@@ -572,6 +575,138 @@ DRIVER = {
         body_first='proof { lemma_ate_refl(&*self); }'),
 }
 
+
+NOT_RELEX = '!(state is Description) && !(state is Normal)'
+RESET_HINT = """
+        let ghost q1 = *self;
+        proof {
+            lemma_lx(&old(self).lexer);
+            lemma_rinv(&self.lexer.reader->0);
+            lemma_lx(&self.lexer);
+            // only the lexer (re-positioned at the start of the current token) and the kind of the current token have changed
+            lemma_dframe_refl(old(self));
+            assert(dframe(old(self), &q1));
+            lemma_tiles_refl(eaten(old(self).lua_parser.events@), front(old(self)), self.lexer.origin_text.spec_bytes());
+            assert(front(&q1) == front(old(self))) /*@C01.docparser.relex-starts-at-current-token-start*/;
+            assert(ate(old(self), &q1)) /*@C01.docparser.eaten-tile-prefix*/;
+        }"""
+DRIVER.update({
+    'LuaDocParser::re_calc_detail': dp_fn(
+        're_calc_detail', attrs=SPIN,
+        requires='dinv(old(self)), real_kind(old(self).current_token)',
+        ensures=EATS,
+        body_first='proof { lemma_ate_refl(&*self); }',
+        proof=[(r'self\.lexer\.state = LuaDocLexerState::Description;', 'after', RESET_HINT + """
+        proof { assert(dinv(&q1)) /*@C01.docparser.relex-nothing-pending*/; }"""),
+               (r'self\.bump\(\);', 'after', 'proof { lemma_ate_trans(old(self), &q1, &*self); }')]),
+    'LuaDocParser::re_calc_cast_type': dp_fn(
+        're_calc_cast_type', attrs=SPIN,
+        requires='dinv(old(self)), !(old(self).current_token is None)',
+        ensures=EATS + ',\n        front(final(self)) == front(old(self)), final(self).lua_parser.events@ == old(self).lua_parser.events@, real_kind(final(self).current_token) == real_kind(old(self).current_token)',
+        body_first='proof { lemma_ate_refl(&*self); }',
+        proof=[(r'self\.lexer\.state = LuaDocLexerState::Normal;', 'after', RESET_HINT),
+               (r'self\.current_token_range = token\.range;\s*\}', 'after', """
+        proof {
+            lemma_dframe_trans(old(self), &q1, &*self);
+            lemma_tiles_refl(eaten(old(self).lua_parser.events@), front(old(self)), self.lexer.origin_text.spec_bytes());
+        }""")]),
+    'LuaDocParser::set_lexer_state': dp_fn(
+        'set_lexer_state', attrs=SPIN,
+        requires='dinv(old(self)), !(old(self).current_token is None)',
+        ensures=EATS + """,
+        final(self).lexer.state == state,
+        (%(NR)s) ==> front(final(self)) == front(old(self)) && final(self).lua_parser.events@ == old(self).lua_parser.events@
+            && real_kind(final(self).current_token) == real_kind(old(self).current_token)""" % {'NR': NOT_RELEX},
+        body_first='proof { lemma_ate_refl(&*self); }'),
+    'LuaDocParser::bump_to_end': dp_fn(
+        'bump_to_end', attrs=SPIN,
+        requires='dinv(old(self)), real_kind(old(self).current_token)',
+        ensures=EATS + ',\n        front(final(self)) > front(old(self)) /*@C02.docparser.bump-progress*/',
+        proof=[(r'self\.set_lexer_state\(LuaDocLexerState::Trivia\);', 'after', 'let ghost q1 = *self;'),
+               (r'self\.set_lexer_state\(LuaDocLexerState::Init\);', 'before', 'let ghost q2 = *self;'),
+               (r'self\.set_lexer_state\(LuaDocLexerState::Init\);', 'after', 'let ghost q3 = *self;'),
+               (r'self\.bump\(\);', 'after', """
+        proof {
+            lemma_ate_trans(old(self), &q1, &q2); lemma_ate_trans(old(self), &q2, &q3); lemma_ate_trans(old(self), &q3, &*self);
+            lemma_ate_le(&q3, &*self);
+        }""")]),
+    'LuaDocParser::current_token_text': dp_fn(
+        'current_token_text', ret='r', requires='dinv(self), real_kind(self.current_token)',
+        body_first='proof { if !lx_done(&self.lexer) { lemma_lx(&self.lexer); } }'),
+    'LuaDocParser::parse': dp_fn(
+        'parse', attrs=SPIN,
+        requires="""lvl_ok(old(lua_parser)), str_len_ok(old(lua_parser).text),
+        dtoks_ok(tokens@, old(lua_parser).text.spec_bytes())""",
+        ensures="""same_cursor(final(lua_parser), old(lua_parser)), final(lua_parser).text == old(lua_parser).text,
+        ev_mono(old(lua_parser).events@, final(lua_parser).events@),
+        final(lua_parser).mark_level >= old(lua_parser).mark_level,
+        lvl_ok(final(lua_parser)),
+        grows(eaten(old(lua_parser).events@), eaten(final(lua_parser).events@)),
+        chain_over(eaten(final(lua_parser).events@).skip(eaten(old(lua_parser).events@).len() as int), ranges(tokens@)) /*@C01.docparser.parse-emits-whole-span*/,
+        forall|i: int| eaten(old(lua_parser).events@).len() <= i < eaten(final(lua_parser).events@).len()
+            ==> is_char_boundary(old(lua_parser).text.spec_bytes(), (#[trigger] eaten(final(lua_parser).events@)[i]).start_offset as int) /*@C01.docparser.eaten-ranges-start-on-char-boundaries*/""",
+        proof=[(r'state: LuaDocParserState::Normal,\s*\};', 'after', 'let ghost q0 = parser;'),
+               (r'parse_comment\(&mut parser\);', 'before', 'let ghost q1 = parser;'),
+               (r'parse_comment\(&mut parser\);', 'after', """
+        proof {
+            lemma_gstep_of_drive(&q0, &q1);
+            lemma_gstep_trans(&q0, &q1, &parser);
+            let e0 = eaten(q0.lua_parser.events@);
+            let e9 = eaten(parser.lua_parser.events@);
+            let d = e9.skip(e0.len() as int);
+            let r = ranges(tokens@);
+            assert(r[0] == tokens@[0].range);
+            assert(r.last() == tokens@.last().range);
+            assert forall|i: int| e0.len() <= i < e9.len() implies is_char_boundary(q0.lexer.origin_text.spec_bytes(), (#[trigger] e9[i]).start_offset as int) by {
+                assert(e9[i] == d[i - e0.len()]);
+            }
+        }""")]),
+})
+
+# =========================================================================================================
+# D3: parse_comment and its loop (grammar/doc/mod.rs); tag grammar under the frame contract gram_pre / gram_post
+# =========================================================================================================
+def gd_fn(name, **kw):
+    d = {'src': {'file': GD, 'kind': 'fn', 'name': name}, 'requires': 'gram_pre(old(p))',
+         'ensures': 'gram_post(old(p), final(p)) /*@C01.docparser.grammar-keeps-invariant*/'}
+    d.update(kw)
+    return d
+
+
+GB = 'broadcast use {lemma_gstep_trans, lemma_gstep_of_drive, lemma_gstep_of_marker};'
+GLOOP = """
+    invariant
+        gram_pre(old(p)), gstep(old(p), p), plvl_ok(p), %(X)s
+    decreases span_hi(p.tokens@) - front(p) /*@C02.docparser.grammar-loops-terminate*/
+"""
+MARKED = 'm.position < p.sp_events().len(), p.sp_events()[m.position as int] is NodeStart, p.sp_level() > old(p).sp_level(),'
+
+GRAMMAR = {
+    'parse_comment': gd_fn(
+        'parse_comment', attrs=SPIN,
+        ensures="""gram_post(old(p), final(p)) /*@C01.docparser.grammar-keeps-invariant*/,
+        final(p).current_token is TkEof && front(final(p)) == span_hi(final(p).tokens@) /*@C01.docparser.parse-emits-whole-span*/""",
+        body_first=GB),
+    'parse_docs': gd_fn(
+        'parse_docs', attrs=SPIN,
+        ensures="""gram_post(old(p), final(p)) /*@C01.docparser.grammar-keeps-invariant*/,
+        final(p).current_token is TkEof /*@C01.docparser.loop-ends-only-at-eof*/""",
+        body_first=GB + '\nproof { lemma_gstep_refl(&*p); }',
+        loops={0: GLOOP % {'X': 'p.sp_level() >= old(p).sp_level(),'},
+               1: GLOOP % {'X': MARKED + ' front(p) > front(&s0),'}},
+        proof=[(r'match p\.current_token\(\) \{', 'before', GB + '\nlet ghost s0 = *p;'),
+               (r'\| LuaTokenKind::TkNormalStart = p\.current_token\(\)\s*\{', 'after', GB)]),
+    'parse_description': gd_fn(
+        'parse_description', attrs=SPIN, body_first=GB,
+        loops={0: GLOOP % {'X': MARKED}},
+        proof=[(r'\| LuaTokenKind::TkNormalStart = p\.current_token\(\)\s*\{', 'after', GB)]),
+    'if_token_bump': gd_fn(
+        'if_token_bump', ret='r',
+        ensures="""gram_post(old(p), final(p)) /*@C01.docparser.grammar-keeps-invariant*/,
+        final(p).sp_level() == old(p).sp_level()""",
+        body_first=GB + '\nproof { lemma_gstep_refl(&*p); }'),
+}
+
 UNIT = {
     'items': dict(_rd.READER, **{k: _rd.LEXER[k] for k in ('LuaTokenKind', 'LuaTokenData', 'LuaTokenData::new', 'is_name_start', 'is_name_continue')}),
     'extra_rules': list(_rd.UNIT['extra_rules']) + CLOSURE_RULES + [
@@ -581,14 +716,134 @@ UNIT = {
          'textually identical anchors, which the `proof` overlay key (unique anchors only) cannot address'),
     ],
     'allow': [r'assume_specification\[ char::is_(alphabetic|alphanumeric|ascii_digit|ascii_alphabetic) \]', r'assume_specification<I: SliceIndex<str>>\[ <str as Index<I>>::index \]', r'external_body'],
-    'min_obligations': 60,
-    'trusted': [],
-    'not_covered': [],
-    'samples': [],
-    'mutants': [],
+    'min_obligations': 150,
+    'trusted': [
+        'ASSUMED frame contract of the tag grammar: parse_tag / parse_long_tag (grammar/doc/tag.rs 822 lines, grammar/doc/types.rs 661 lines, not extracted, external_body): '
+        'requires gram_pre (driver invariant dinv, current token not None, mark_level <= #events); ensures gram_post (dinv again, current token not None, '
+        'the EatToken ranges appended between entry and exit tile exactly [front(entry), front(exit)) each starting on a char boundary, frontier inside the span, '
+        'origin tokens / text / LuaParser cursor+config untouched, the borrowed LuaParser not exchanged, events only grow with NodeStarts staying NodeStarts, '
+        'mark_level >= entry value and <= #events). Basis (grep over crates/emmylua_parser/src, not proved): get_events() is called only in marker.rs and '
+        'lua_doc_parser.rs {get_events delegation, bump, eat_current_and_lex_next}; `.reset(` of the doc lexer only in lua_doc_parser.rs {lex_token, re_calc_detail, '
+        're_calc_cast_type}; `current_token_range =` only in {calc_next_current_token, eat_current_and_lex_next, re_calc_cast_type}; `current_token =` of the doc parser only in '
+        '{calc_next_current_token, eat_current_and_lex_next, set_lexer_state, re_calc_detail, re_calc_cast_type, set_current_token_kind}; origin_token_index only in lex_token (write) '
+        'and re_calc_* (read); the pub field `lexer` is read in grammar/doc/types.rs:58 (p.lexer.state) and :322 (p.lexer.clone() for a look-ahead on the copy) and in '
+        'grammar/doc/mod.rs:77 (p.lexer.reader, extracted here) and never written outside lua_doc_parser.rs; set_current_token_kind is called at tag.rs:175 (TkDocConst, current '
+        'token is a TkName) and types.rs:536 (TkDocInfer, current token is a TkName): both within its precondition (new kind and current kind real); bump_to_end only in parse_docs',
+        'PRECONDITION of LuaDocParser::parse (stronger than the contract unit c01_parser assumes for it): str_len_ok(text) and dtoks_ok(tokens, text bytes) - every comment token range is '
+        'non-empty, inside the text and on char boundaries, consecutive ranges adjacent. All of it follows from link L1 (c01_reader: `tiled`), but c01_parser does not carry the '
+        'char-boundary / inside-the-text facts to the call site (its tokens_ok has adjacency and non-emptiness only)',
+        'PRECONDITIONS of driver functions towards the (unextracted) grammar: set_current_token_kind(kind): kind and the current kind are real (not None / TkEof) - '
+        'set_current_token_kind(None) on a pending token WOULD drop its bytes at the next bump; bump_to_end / eat_current_and_lex_next: current kind real; set_lexer_state, '
+        're_calc_cast_type: current kind not None; bump: none beyond the invariant (bump at TkEof is a no-op)',
+        'vx_trailing_close_count (rule long-desc-trailing-count, external_body): the number of trailing `]`/`=` chars of the token text is <= its byte length',
+        'assume_specification <str as Index<I>>::index: the result of `&s[range]` satisfies SliceIndex::index\'s postcondition (vstd defines it for str as bytes == s.bytes.subrange(start, end) '
+        'but attaches it only to slices); char::is_ascii_digit / is_ascii_alphabetic with their std-documented ranges; char::is_alphabetic / is_alphanumeric total, result unconstrained',
+        'ParserConfig: opaque external type (never inspected by the doc parser driver)',
+        'everything unit c01_reader trusts for Reader (str_len_ok, vstd specs of Chars / str slicing / len_utf8, PartialEqSpecImpl of the derived PartialEq on LuaTokenKind; same for '
+        'LuaDocLexerState here)',
+        'rewrite rules: match-if-chain, closure-true-ensures, closure-ascii-digit-ensures, closure-ascii-alpha-ensures, long-desc-trailing-count, c01doc-ws-step (this unit); '
+        'assert-eq, closure-ensures, closure-wildcard, debug-assert, assert-bang, struct-fields, vis-pub, letchain-nest, trait-spec-overlay (c01_reader / c01_parser / catalogue)',
+    ],
+    'not_covered': [
+        'grammar/doc/tag.rs and grammar/doc/types.rs (the tag and type grammar): under the frame contract gram_pre / gram_post only; panics and termination inside them are not covered',
+        'C02 / H-EV for the doc parser: preservation of c01_green\'s events_ok (parent links) is not stated here (the driver pushes only EatToken events and `mark` pushes parent: 0; '
+        'CompleteMarker::precede, the only writer of `parent`, is called from the unextracted grammar)',
+        'LuaDocParser::push_error (writes lua_parser.errors, a field projected out of LuaParser), expect_token (i18n macro), is_mapped_type (look-ahead on a clone of the lexer), '
+        'Marker::set_kind / CompleteMarker::{precede,empty,is_invalid} (proved generically in unit c01_parser, not needed by the extracted doc code)',
+        'which KIND a doc token gets and the lexer state machine (only: the kind is never None / TkEof before the range is exhausted)',
+        'the composition with unit c01_parser (replacing its external_body shim of LuaDocParser::parse by this contract) is not mechanised: see the precondition gap above',
+    ],
+    'samples': [
+        'LuaDocLexer::lex (+ 15 state functions, lex_number, read_doc_name, verbatim up to match->if-chain): exactly one reset_buff then bumps only (the token starts where the previous one ended), '
+        'ends inside the range, >= 1 char consumed and a real kind unless the range is exhausted; TkEof <==> range exhausted; all offsets on char boundaries of origin_text (lemma_lx)',
+        'driver invariant dinv(p) = dbase(p) && match current_token { None => (reader None && origin_token_index == 0) || lexer has input left, '
+        'TkEof => lexer exhausted && origin_token_index == last && end(current_token_range) == span end, _ => placed(p, current_token_range) }',
+        'bump: requires dinv; ensures dinv, current != None, ate(old, final): eaten(events) grew by ranges tiling exactly [front(old), front(final)); real kind ==> front strictly larger',
+        're_calc_detail / re_calc_cast_type: the lexer is re-positioned at the START of the current, not yet eaten token (front unchanged): no byte is lost or duplicated',
+        'parse_docs: gstep(entry, p) is a loop invariant, span_hi - front(p) decreases in every iteration, exit only with current_token == TkEof i.e. front == span_hi',
+        'LuaDocParser::parse: eaten(events) grows by ranges that tile exactly [start of tokens[0], end of tokens.last()), each starting on a char boundary; tokens / cursor / config of the '
+        'LuaParser untouched; events monotone; mark_level >= entry and <= #events  (= the contract unit c01_parser assumes, plus H-DOC of c01_compose)',
+    ],
+    'mutants': [
+        # ---- D1
+        {'name': 'doclexer-arm-forgets-to-bump', 'item': 'LuaDocLexer::lex_normal',
+         'pattern': r"':' => \{\s*reader\.bump\(\);", 'repl': "':' => {", 'expect': r'C02\.doclexer\.progress'},
+        {'name': 'doclexer-whitespace-arm-does-not-eat', 'item': 'LuaDocLexer::lex_tag',
+         'pattern': r'reader\.eat_while\(is_doc_whitespace\);', 'repl': '', 'expect': r'C02\.doclexer\.progress'},
+        {'name': 'doclexer-lex-without-reset-buff', 'item': 'LuaDocLexer::lex',
+         'pattern': r'reader\.reset_buff\(\);', 'repl': '', 'expect': r'C01\.doclexer\.tiles-its-range'},
+        {'name': 'doclexer-eof-by-sentinel', 'item': 'LuaDocLexer::lex',
+         'pattern': r'if reader\.is_eof\(\) \{', 'repl': "if reader.current_char() == '\\0' {",
+         'expect': r'C01\.doclexer\.eof-only-when-range-exhausted|LuaDocLexer::lex:precondition'},
+        {'name': 'doclexer-reset-to-wrong-offset', 'item': 'LuaDocLexer::reset',
+         'pattern': r'Reader::new_with_range\(text, range\)', 'repl': 'Reader::new_with_range(text, SourceRange::new(0, range.length))',
+         'expect': r'C01\.doclexer\.reset-reads-the-range'},
+        {'name': 'doclexer-is-invalid-ignores-reader', 'item': 'LuaDocLexer::is_invalid',
+         'pattern': r'Some\(ref reader\) => reader\.is_eof\(\),', 'repl': 'Some(ref reader) => false,',
+         'expect': r'C01\.doclexer\.invalid-iff-range-exhausted'},
+        {'name': 'doclexer-token-range-is-tail', 'item': 'LuaDocLexer::current_token_range',
+         'pattern': r'\.current_range\(\)', 'repl': '.tail_range()', 'expect': r'C01\.doclexer\.token-range-is-pending-token'},
+        {'name': 'doclexer-name-loop-does-not-bump', 'item': 'read_doc_name',
+         'pattern': r"'`' => \{\s*str_tpl = true;\s*reader\.bump\(\);", 'repl': "'`' => { str_tpl = true;",
+         'expect': r'read_doc_name:decreases-not-satisfied'},
+        {'name': 'doclexer-tag-kind-eof', 'item': 'to_tag',
+         'pattern': r'_ => LuaTokenKind::TkTagOther,', 'repl': '_ => LuaTokenKind::TkEof,', 'expect': r'C01\.doclexer\.real-kind'},
+        # ---- D2
+        {'name': 'docparser-bump-does-not-push', 'item': 'LuaDocParser::bump',
+         'pattern': r'if !is_invalid_kind\(self\.current_token\) \{', 'repl': 'if false {', 'expect': r'C01\.docparser\.eaten-tile-prefix'},
+        {'name': 'docparser-bump-pushes-eof', 'item': 'LuaDocParser::bump',
+         'pattern': r'if !is_invalid_kind\(self\.current_token\) \{', 'repl': 'if self.current_token != LuaTokenKind::None {',
+         'expect': r'C01\.docparser\.eaten-tile-prefix'},
+        {'name': 'docparser-invalid-kind-set', 'item': 'is_invalid_kind',
+         'pattern': r'LuaTokenKind::None \| LuaTokenKind::TkEof', 'repl': 'LuaTokenKind::None | LuaTokenKind::TkEof | LuaTokenKind::TkDocDetail',
+         'expect': r'C01\.docparser\.invalid-kinds-are-none-and-eof'},
+        {'name': 'docparser-eat-pushes-empty-range', 'item': 'LuaDocParser::eat_current_and_lex_next',
+         'pattern': r'range: self\.current_token_range,', 'repl': 'range: SourceRange::EMPTY,', 'expect': r'C01\.docparser\.eaten-tile-prefix'},
+        {'name': 'docparser-lex-token-skips-origin-token', 'item': 'LuaDocParser::lex_token',
+         'pattern': r'self\.origin_token_index \+ 1', 'repl': 'self.origin_token_index + 2',
+         'expect': r'C01\.docparser\.(next-token-starts-where-lexing-stopped|eof-only-when-all-origin-tokens-are-lexed)'},
+        {'name': 'docparser-lex-token-relexes-first-token', 'item': 'LuaDocParser::lex_token',
+         'pattern': r'if self\.origin_token_index == 0 && self\.current_token == LuaTokenKind::None \{', 'repl': 'if self.origin_token_index == 0 {',
+         'expect': r'C01\.docparser\.(next-token-starts-where-lexing-stopped|eof-only-when-all-origin-tokens-are-lexed)'},
+        {'name': 'docparser-eof-token-at-start-of-last', 'item': 'LuaDocParser::lex_token',
+         'pattern': r'SourceRange::new\(self\.current_token_range\.end_offset\(\), 0\)', 'repl': 'SourceRange::new(self.current_token_range.start_offset, 0)',
+         'expect': r'C01\.docparser\.eof-only-when-all-origin-tokens-are-lexed'},
+        {'name': 'docparser-passthrough-drops-whitespace', 'item': 'LuaDocParser::lex_token',
+         'pattern': r'return next_origin_token;', 'repl': 'continue;', 'expect': r'LuaDocParser::lex_token:'},
+        {'name': 'docparser-calc-next-keeps-old-range', 'item': 'LuaDocParser::calc_next_current_token',
+         'pattern': r'self\.current_token_range = token\.range;', 'repl': '', 'expect': r'C01\.docparser\.(invariant|eaten-tile-prefix)'},
+        {'name': 'docparser-recalc-from-token-end', 'item': 'LuaDocParser::re_calc_detail',
+         'pattern': r'start_offset: read_range\.start_offset,\s*length: origin_token_range\.end_offset\(\) - read_range\.start_offset,',
+         'repl': 'start_offset: read_range.end_offset(), length: origin_token_range.end_offset() - read_range.end_offset(),',
+         'expect': r'C01\.docparser\.relex-starts-at-current-token-start'},
+        {'name': 'docparser-recalc-keeps-current-pending', 'item': 'LuaDocParser::re_calc_detail',
+         'pattern': r'self\.current_token = LuaTokenKind::None;', 'repl': '', 'expect': r'C01\.docparser\.relex-nothing-pending'},
+        {'name': 'docparser-recalc-cast-from-token-end', 'item': 'LuaDocParser::re_calc_cast_type',
+         'pattern': r'start_offset: read_range\.start_offset,\s*length: origin_token_range\.end_offset\(\) - read_range\.start_offset,',
+         'repl': 'start_offset: read_range.end_offset(), length: origin_token_range.end_offset() - read_range.end_offset(),',
+         'expect': r'C01\.docparser\.eaten-tile-prefix'},
+        {'name': 'docparser-trivia-state-drops-token', 'item': 'LuaDocParser::set_lexer_state',
+         'pattern': r'self\.current_token = LuaTokenKind::TkDocTrivia;', 'repl': 'self.current_token = LuaTokenKind::None;',
+         'expect': r'C01\.docparser\.(invariant|eaten-tile-prefix)|LuaDocParser::set_lexer_state:postcondition'},
+        {'name': 'docparser-bump-to-end-without-eat', 'item': 'LuaDocParser::bump_to_end',
+         'pattern': r'self\.eat_current_and_lex_next\(\);', 'repl': 'let token = self.lex_token(); self.current_token = token.kind; self.current_token_range = token.range;',
+         'expect': r'LuaDocParser::bump_to_end:'},
+        # ---- D3
+        {'name': 'parse-docs-stops-before-eof', 'item': 'parse_docs',
+         'pattern': r'while p\.current_token\(\) != LuaTokenKind::TkEof \{', 'repl': 'while p.current_token() != LuaTokenKind::TkEof && p.current_token() != LuaTokenKind::TkDocTrivia {',
+         'expect': r'C01\.docparser\.loop-ends-only-at-eof'},
+        {'name': 'parse-docs-arm-without-bump', 'item': 'parse_docs',
+         'pattern': r'LuaTokenKind::TKDocTriviaStart => \{\s*p\.bump\(\);', 'repl': 'LuaTokenKind::TKDocTriviaStart => {',
+         'expect': r'parse_docs:decreases-not-satisfied'},
+        {'name': 'parse-without-init', 'item': 'LuaDocParser::parse',
+         'pattern': r'parser\.init\(\);', 'repl': '', 'expect': r'LuaDocParser::parse:'},
+        {'name': 'parse-comment-skips-docs', 'item': 'parse_comment',
+         'pattern': r'parse_docs\(p\);', 'repl': '', 'expect': r'C01\.docparser\.parse-emits-whole-span'},
+    ],
 }
 UNIT['items'].update(DOCLEXER)
 UNIT['items'].update(DRIVER)
+UNIT['items'].update(GRAMMAR)
 
 # Reader::consume_char_n_times: c01_reader's contract plus one clause the doc lexer needs (the `'/'` arm of lex_init /
 # lex_normal_description makes progress only through it): the first char is eaten if it is `ch` and count > 0.
